@@ -510,48 +510,24 @@ func genHist(prop, out, tier string, rng *rand.Rand, oracle string) {
 		// every patch is one atomic step: all interleavings (at the yield point between precondition
 		// check and store mutation) of a metadata patch with a second patch, a content write or a
 		// delete of the same object, compared step by step with the interleaving model
-		final := []Req{{Kind: "get_meta", B: c07B, N: "obj"}, {Kind: "get_media", B: c07B, N: "obj"}, {Kind: "list", B: c07B}}
-		type job struct {
-			mk      storeMaker
-			threads [][]Req
-			sched   []int
-			tag     string
-		}
-		var jobs []job
 		ctA, ctB := "text/pa", "text/pb"
 		patchA := Req{Kind: "patch", B: c07B, N: "obj", Patch: &Patch{CType: &ctA, HasMeta: true, Meta: [][2]string{{"a", "1"}}}, CP: noConds}
 		patchB := Req{Kind: "patch", B: c07B, N: "obj", Patch: &Patch{CType: &ctB, HasMeta: true, Meta: [][2]string{{"b", "2"}}}, CP: noConds}
-		for _, mk := range stores() {
-			for _, kb := range []int{-1, 0, 1, 3, 4, 6} {
-				rb, nb := patchB, 2
-				if kb >= 0 {
-					rb, nb = c07Request(kb, 2)
-				}
-				for _, sch := range interleavings(2, nb) {
-					jobs = append(jobs, job{mk, [][]Req{{patchA}, {rb}}, sch, fmt.Sprintf("patch-atomic-%d", kb)})
-				}
-				for _, sch := range interleavings(nb, 2) {
-					jobs = append(jobs, job{mk, [][]Req{{rb}, {patchA}}, sch, fmt.Sprintf("patch-atomic-%d", kb)})
-				}
-			}
-		}
-		results := make([]*GConcCase, len(jobs))
-		parallel(len(jobs), func(i int) {
-			results[i] = runGConc(jobs[i].mk, c07Setup(), jobs[i].threads, jobs[i].sched, final, jobs[i].tag)
-		})
-		for _, c := range results {
-			if c == nil {
-				sink.stats.Skipped++
-				continue
-			}
-			js, _ := json.Marshal(c)
-			sink.AddPreV("conc", "check_gconc", "gcase", c.pseudo(), c.coq(), js, true)
-		}
+		addObjectInterleavings(sink, patchA, 2, &patchB, []int{0, 1, 3, 4, 6}, "patch-atomic")
+	}
+	if prop == "C15" {
+		// compose and copy are one atomic step each: all interleavings of a compose whose destination is
+		// among its sources (the append idiom), and of a copy onto the object, with a second compose, an
+		// upload, a delete, a copy or an upload of a compose source
+		comp, _ := c07Request(5, 1)
+		cpy, _ := c07Request(6, 1)
+		addObjectInterleavings(sink, comp, 2, nil, []int{0, 4, 5, 6, 9}, "compose-atomic")
+		addObjectInterleavings(sink, cpy, 2, nil, []int{0, 4, 5}, "copy-atomic")
 	}
 	if prop == "C02" {
 		genUrls(sink, tier, rng) // URL forms against the model of the four unanchored patterns
 	}
-	sink.Close(fmt.Sprintf("(C10 additionally: every interleaving of a metadata patch with a second patch, a content write, a delete or a copy onto the same object at the yield point between precondition check and store mutation, both stores, compared step by step with the interleaving model; C02/C11 additionally: uploads, compose and copy without an object name, a resumable session with a wrong declared MD5 finished several times; C02 additionally: decoded request paths - every URL form x bucket x name from pools with traps, plus random fragment concatenations - parsed by the real ParseGcsUrl and compared with the Coq model of the four unanchored patterns; and the round trip of the public form for every (bucket, name) pair) random histories (focus %s) of about %d requests over 2 buckets x %d names x %d payloads, all upload protocols with random chunkings, re-sent ranges, status queries, gzip bodies, wrong/invalid MD5, the three download URL forms, patches incl. read-only fields, listings, compose, copy, deletes, conditions; each program runs on the memory and the file store (names representable as files) and, one in three, on the memory store with trap names; distinct = distinct canonical (program, observation) text; non-trivial = at least one successful content write and one non-empty successful download", prop, length, len(namesRepresentable), len(payloads)), false)
+	sink.Close(fmt.Sprintf("(C15 additionally: every interleaving of a compose with its destination among its sources, and of a copy, with a second writer of the object; C10 additionally: every interleaving of a metadata patch with a second patch, a content write, a delete or a copy onto the same object at the yield point between precondition check and store mutation, both stores, compared step by step with the interleaving model; C02/C11 additionally: uploads, compose and copy without an object name, a resumable session with a wrong declared MD5 finished several times; C02 additionally: decoded request paths - every URL form x bucket x name from pools with traps, plus random fragment concatenations - parsed by the real ParseGcsUrl and compared with the Coq model of the four unanchored patterns; and the round trip of the public form for every (bucket, name) pair) random histories (focus %s) of about %d requests over 2 buckets x %d names x %d payloads, all upload protocols with random chunkings, re-sent ranges, status queries, gzip bodies, wrong/invalid MD5, the three download URL forms, patches incl. read-only fields, listings, compose, copy, deletes, conditions; each program runs on the memory and the file store (names representable as files) and, one in three, on the memory store with trap names; distinct = distinct canonical (program, observation) text; non-trivial = at least one successful content write and one non-empty successful download", prop, length, len(namesRepresentable), len(payloads)), false)
 }
 
 // sameSizePrograms: copies and composes between objects of EQUAL size (with and without MD5), onto
@@ -584,4 +560,52 @@ func sameSizePrograms() [][]Req {
 		append([]Req{up("a", "AAAA"), up("b", "BBBB"), comp("x", "a", "b"), comp("y", "b", "a"), cp("y", "x")}, append(get("x"), get("y")...)...),
 		append([]Req{up("a", "AAAA"), up("b", "BBBB"), comp("x", "a"), comp("x", "b")}, get("x")...))
 	return progs
+}
+
+// addObjectInterleavings runs every interleaving of [own] with each of the given request kinds of the
+// C07 generator (and with [twin], if any) on one object, on both stores, against the interleaving model.
+func addObjectInterleavings(sink *Sink, own Req, ownSteps int, twin *Req, kinds []int, tag string) {
+	final := []Req{{Kind: "get_meta", B: c07B, N: "obj"}, {Kind: "get_media", B: c07B, N: "obj"}, {Kind: "list", B: c07B}}
+	type job struct {
+		mk      storeMaker
+		threads [][]Req
+		sched   []int
+		tag     string
+	}
+	var jobs []job
+	for _, mk := range stores() {
+		type other struct {
+			r Req
+			n int
+			k int
+		}
+		var others []other
+		if twin != nil {
+			others = append(others, other{*twin, ownSteps, -1})
+		}
+		for _, k := range kinds {
+			r, n := c07Request(k, 2)
+			others = append(others, other{r, n, k})
+		}
+		for _, o := range others {
+			for _, sch := range interleavings(ownSteps, o.n) {
+				jobs = append(jobs, job{mk, [][]Req{{own}, {o.r}}, sch, fmt.Sprintf("%s-%d", tag, o.k)})
+			}
+			for _, sch := range interleavings(o.n, ownSteps) {
+				jobs = append(jobs, job{mk, [][]Req{{o.r}, {own}}, sch, fmt.Sprintf("%s-%d", tag, o.k)})
+			}
+		}
+	}
+	results := make([]*GConcCase, len(jobs))
+	parallel(len(jobs), func(i int) {
+		results[i] = runGConc(jobs[i].mk, c07Setup(), jobs[i].threads, jobs[i].sched, final, jobs[i].tag)
+	})
+	for _, c := range results {
+		if c == nil {
+			sink.stats.Skipped++
+			continue
+		}
+		js, _ := json.Marshal(c)
+		sink.AddPreV("conc", "check_gconc", "gcase", c.pseudo(), c.coq(), js, true)
+	}
 }
